@@ -207,6 +207,23 @@ type Endpoint struct {
 	PostShutdownDials  int
 	// ShutdownDelay makes Transport.Shutdown take that long.
 	ShutdownDelay time.Duration
+	// unreachable destinations: a packet write towards them fails like sendto() with EHOSTUNREACH
+	unreachable map[string]bool
+	SendErrors  int
+}
+
+// SetUnreachable makes packet writes of this endpoint towards dst fail with a write error (or succeed again).
+func (e *Endpoint) SetUnreachable(dst string, on bool) {
+	e.mu.Lock()
+	defer e.mu.Unlock()
+	if e.unreachable == nil {
+		e.unreachable = map[string]bool{}
+	}
+	if on {
+		e.unreachable[dst] = true
+	} else {
+		delete(e.unreachable, dst)
+	}
 }
 
 var _ memberlist.NodeAwareTransport = (*Endpoint)(nil)
@@ -267,6 +284,12 @@ func (e *Endpoint) WriteToAddress(b []byte, a memberlist.Address) (time.Time, er
 		e.mu.Unlock()
 		e.net.emit(Event{Kind: "pkt-after-shutdown", Src: e.addr, Dst: a.Addr, Data: append([]byte(nil), b...)})
 		return now, &net.OpError{Op: "write", Net: "udp", Err: errors.New("use of closed network connection")}
+	}
+	if e.unreachable[a.Addr] {
+		e.SendErrors++
+		e.mu.Unlock()
+		e.net.emit(Event{Kind: "pkt-send-error", Src: e.addr, Dst: a.Addr})
+		return now, &net.OpError{Op: "write", Net: "udp", Err: errors.New("sendto: no route to host")}
 	}
 	e.mu.Unlock()
 	e.net.sendPacket(e.addr, a.Addr, b)
